@@ -306,6 +306,14 @@ func (e *Engine) contractWrites(c *Contract, ws *writeSet, sig *types.Signature,
 		case strings.HasPrefix(m, "* except "):
 			ws.all = true
 			ws.why = append(ws.why, "modifies "+m+" of "+c.Key)
+		case m == "syncmaps":
+			domS, valS := smSorts()
+			for k, srt := range map[string]string{"SM:dom": domS, "SM:tag": valS, "SM:val": valS} {
+				if _, ok := heapSorts[k]; !ok {
+					heapSorts[k] = srt
+				}
+				ws.keys[k] = true
+			}
 		case m == "ghosts":
 			for name := range e.db.Ghosts {
 				ws.keys["G:"+name] = true
